@@ -80,6 +80,9 @@ def gen_cfg(seed, index, tier):
     m["spin_dep"] = rng.random() < 0.6
     m["rdm1_kind"] = rng.choice(["own", "arbitrary"])
     m["h1_antisym"] = rng.choice([0.0, 0.0, 0.0, 0.05])
+    m["reuse_ham_data"] = rng.random() < 0.3
+    # nearly linearly dependent columns in a user-supplied start walker (condition number 1e4-1e6)
+    m["near_dependent_start"] = (not m.get("orthonormal_start", True)) and rng.random() < 0.5
     m["ene0"] = rng.choice([0.0, -1.3, 0.7])
     m["jax_seed"] = rng.randrange(1, 2**20)
     m["walker_noise"] = rng.choice([0.0, 0.1, 0.3])
@@ -124,8 +127,7 @@ def build(cfg, dt=None):
         r0 = np.asarray(s.wave_data["rdm1"])
         s.wave_data = dict(s.wave_data)
         s.wave_data["rdm1"] = jnp.array(r0 + np.array([lab.rand_sym(rs, cfg["norb"], 0.3), lab.rand_sym(rs, cfg["norb"], 0.3)]))
-    hd = s.ham.build_measurement_intermediates(dict(s.ham_data_raw), s.trial, s.wave_data)
-    s.ham_data = s.ham.build_propagation_intermediates(hd, s.plain, s.trial, s.wave_data)
+    s.ham_data = lab.build_intermediates(s, s.plain, reuse=cfg.get("reuse_ham_data", False))
     return s, rs
 
 
@@ -151,7 +153,12 @@ def start_walkers(cfg, s, rs):
         x = b[None] + eps * (rs.normal(size=(nw,) + b.shape) + 1j * rs.normal(size=(nw,) + b.shape))
         if cfg.get("orthonormal_start", True):
             return np.array([np.linalg.qr(y)[0] for y in x])
-        return x * (0.7 + 0.6 * rs.uniform(size=(nw, 1, 1)))  # general full-rank walkers, not even normalised
+        x = x * (0.7 + 0.6 * rs.uniform(size=(nw, 1, 1)))  # general full-rank walkers, not even normalised
+        if cfg.get("near_dependent_start") and x.shape[2] >= 2:
+            # last column = first column + a tiny admixture of itself: condition number ~ 1 / eps_dep
+            eps_dep = 10.0 ** rs.uniform(-6, -4, size=(nw, 1))
+            x[:, :, -1] = x[:, :, 0] + eps_dep * x[:, :, -1]
+        return x
 
     return [jnp.array(noisy(bu)), jnp.array(noisy(bd))]
 
@@ -197,11 +204,11 @@ def compare_free(ctx, cfg, m, tr, opname, walkers_up, walkers_dn, norms, overlap
         # both the code and the model, so the tolerance follows the conditioning and a
         # walker beyond cond 1e5 is no longer refined (counted)
         kappa = float(np.linalg.cond(Mu)) * float(np.linalg.cond(Md))
-        if not np.isfinite(kappa) or kappa > 1e5:
+        if not np.isfinite(kappa) or kappa > 1e7:
             tr.ok[i] = False
             stats["dropped_ill_conditioned"] = stats.get("dropped_ill_conditioned", 0) + 1
             continue
-        tol = 1e-9 + 1e-10 * kappa
+        tol = 1e-9 + 1e-12 * kappa  # a backward-stable orthonormalisation loses about cond x eps
         Q = (walkers_up[i], walkers_dn[i])
         for q in Q:
             if not np.allclose(q.conj().T @ q, np.eye(q.shape[1]), atol=1e-9):
